@@ -232,7 +232,7 @@ static int yearFromTime(double t)
 	static const int d100y = d4y * 25 - 1;  // 100 year block (except multiples of 400)
 	static const int d400y = 4 * d100y + 1; // 400 year block (one more leap for the first year in the block)
 
-	int d = (int)floor(t * (1 / 86400.0)) + d400y * 4 + d100y + 1 + d100y * 2 + d4y - 1 + 16 * d4y + 2 * 365 + 1;
+	int d = (int)floor(t / 86400.0) + d400y * 4 + d100y + 1 + d100y * 2 + d4y - 1 + 16 * d4y + 2 * 365 + 1;
 	//(1970 = 4 * 400 + 3 * 100 + 17 * 4 + 2)
 	if (d > 695421 && d < 766645) // 1904 - 2099 : all d4y blocks
 	{
@@ -328,6 +328,7 @@ DateData Date::calc(double t)
 		memset(&date, 0, sizeof(date));
 		return date;
 	}
+	t += 0.0005; // round to the millisecond first, so that the date rolls over together with the time of day
 	date.year = yearFromTime(t);
 	int leap = isLeapYear(t) ? 1 : 0;
 	int yd = (int)dayWithinYear(t, date.year);
@@ -343,11 +344,11 @@ DateData Date::calc(double t)
 	}
 	date.day = yd - month_days[leap][date.month] + 1;
 
-	t += 0.0005;
-	double dt = ((t / 86400.0) - floor(t / 86400.0));
-	int    h = (int)floor(24 * dt);
-	int    m = (int)floor((24 * dt - h) * 60);
-	int    s = (int)floor(((24 * dt - h) * 60 - m) * 60.0);
+	int sod = (int)floor(t - floor(t / 86400.0) * 86400.0); // whole seconds since midnight (exact: no fractional-day arithmetic)
+	sod = clamp(sod, 0, 86399);
+	int h = sod / 3600;
+	int m = (sod / 60) % 60;
+	int s = sod % 60;
 	
 	date.hours = h;
 	date.minutes = m;
@@ -371,7 +372,7 @@ String Date::toString(Date::Format fmt, bool utc) const
 		break;
 	case FULL:
 		s = String::f("%04i-%02i-%02iT%02i:%02i:%02i.%03i", d.year, d.month, d.day, d.hours, d.minutes, d.seconds,
-		              int(1000 * fract(_t) + 0.5) % 1000);
+		              int(1000 * fract(_t + 0.0005)) % 1000); // same rounding as the seconds field
 		break;
 	case SHORT:
 		s = String(15, "%04i%02i%02iT%02i%02i%02i", d.year, d.month, d.day, d.hours, d.minutes, d.seconds);
